@@ -50,7 +50,8 @@ structure World where
   readLog : List (Nat × Nat × Nat) := []
   cache : LruCache Bytes
   events : List BlockEvent := []
-  /-- sizes of the buffers `read_bytes` allocated, most recent first -/
+  /-- sizes of the buffers allocated for reads (`read_bytes`, the footer buffer) and for
+      decompression (`decompress_vec`), most recent first -/
   allocs : List Nat := []
 
 /-- reader options -/
@@ -104,6 +105,26 @@ def readAt (file off len : Nat) : M Bytes := fun w =>
 def readBytes (file : Nat) (loc : BlockHandle) : M Bytes := fun w =>
   readAt file loc.offset loc.size { w with allocs := loc.size :: w.allocs }
 
+/-- an allocation of `n` bytes that is not a `read_bytes` buffer (logged like those) -/
+def logAlloc (n : Nat) : M Unit := fun w => ({ w with allocs := n :: w.allocs }, .ok ())
+
+/-- the snappy arm of `read_block_contents` (after fix D20): `snap::raw::decompress_len`, the
+    plausibility guard `declared > buf.len().saturating_mul(SNAPPY_MAX_EXPANSION)`, then
+    `Decoder::new().decompress_vec(&buf)`, which allocates `vec![0; declared]` up front — hence the
+    allocation is logged before the elements are decoded, also when decoding then fails.
+    (`saturating_mul`: the declared length is at most 2^32-1 ≤ usize::MAX, so comparing with the
+    saturated product and with the exact product give the same answer.) -/
+def decompressGuarded (data : Bytes) : M Bytes :=
+  match Snappy.declaredLen data with
+  | none => M.fail .compressionError
+  | some n =>
+    if n > Consts.snappyMaxExpansion * data.length then M.fail .compressionError
+    else do
+      logAlloc n
+      match Snappy.decode data with
+      | some d => pure d
+      | none => M.fail .compressionError
+
 /-- `read_block_contents`: read, verify the checksum, decompress -/
 def readBlockContents (file : Nat) (loc : BlockHandle) : M Bytes := do
   let buf ← readBytes file ⟨loc.offset, loc.size + Consts.tableBlockCksumLen + Consts.tableBlockCompressLen⟩
@@ -112,10 +133,7 @@ def readBlockContents (file : Nat) (loc : BlockHandle) : M Bytes := do
   let cksum := decodeFixed32 ((buf.drop (loc.size + Consts.tableBlockCompressLen)).take 4)
   if crc32c (data ++ [UInt8.ofNat ctype]) ≠ unmaskCrc cksum then M.fail .corruption
   else if ctype = Consts.compressionNone then pure data
-  else if ctype = Consts.compressionSnappy then
-    match Snappy.decode data with
-    | some d => pure d
-    | none => M.fail .compressionError
+  else if ctype = Consts.compressionSnappy then decompressGuarded data
   else M.fail .invalidData
 
 /-- `read_table_block` (after fix D18a: structure validated); returns the block contents -/
@@ -158,7 +176,8 @@ namespace Table
 def readFooter (file size : Nat) : M Footer := do
   if size < Consts.fullFooterLength then M.fail .corruption
   else
-    let buf ← readAt file (size - Consts.fullFooterLength) Consts.fullFooterLength
+    -- `let mut buf = vec![0; FULL_FOOTER_LENGTH]; f.read_at(size - FULL_FOOTER_LENGTH, &mut buf)?`
+    let buf ← readBytes file ⟨size - Consts.fullFooterLength, Consts.fullFooterLength⟩
     match Footer.tryDecode buf with
     | some f => pure f
     | none => M.fail .corruption
